@@ -148,9 +148,8 @@ def run(ctx):
     from rules import c03, c08, c02
     c03.r2(SubCtx(ctx, {'R2': 'R6'}))
     c08.r6(SubCtx(ctx, {'R6': 'R6'}))
-    # the chain height the range is checked against is the best chain's (= C02.R1/R6)
+    # the chain height the range is checked against is the best chain's (= C02.R6)
     c02.r5_r6(SubCtx(ctx, {'R6': 'R3'}))
-    c02.r1(SubCtx(ctx, {'R1': 'R3'}))
     # ---------------- R5 ------------------------------------------------------------------------
     fbs = prog.find('<ic_btc_canister::types::BlockHeaderBlob as core::convert::From>::from')
     okb = False
